@@ -220,30 +220,30 @@ OPTION_COMBINATORS = {"map", "and_then", "map_or", "map_or_else", "filter", "is_
                       "ok_or_else", "map_err", "then", "then_some", "inspect"}
 
 
-def norm_for_elem(node):
+def norm_for_elem(node, owner=None):
     """rewrite `next(iterator)@Some.0...` (for-loop element) into an elem pseudo-leaf"""
     from .exprs import mkproj
     k = node[0]
     if k == "proj":
-        base = norm_for_elem(node[1])
+        base = norm_for_elem(node[1], owner)
         pr = node[2]
         if base[0] == "call" and short_callee(base[1]) == "next" and base[2] and len(pr) >= 2 and pr[0] == "@Some" and pr[1] == ".0":
             ch = iter_chain(base[2][0])
             if ch.steps:
-                return mkproj(elem_of_chain(ch), pr[2:])
+                return mkproj(elem_of_chain(ch, owner), pr[2:])
         return mkproj(base, pr)
     if k == "bin":
-        return ("bin", node[1], norm_for_elem(node[2]), norm_for_elem(node[3]))
+        return ("bin", node[1], norm_for_elem(node[2], owner), norm_for_elem(node[3], owner))
     if k == "un":
-        return ("un", node[1], norm_for_elem(node[2]))
+        return ("un", node[1], norm_for_elem(node[2], owner))
     if k == "cast":
-        return ("cast", norm_for_elem(node[1]), node[2])
+        return ("cast", norm_for_elem(node[1], owner), node[2])
     if k == "discr":
-        return ("discr", norm_for_elem(node[1]))
+        return ("discr", norm_for_elem(node[1], owner))
     if k == "call":
-        return ("call", node[1], tuple(norm_for_elem(a) for a in node[2]), node[3])
+        return ("call", node[1], tuple(norm_for_elem(a, owner) for a in node[2]), node[3])
     if k == "agg":
-        return ("agg", node[1], node[2], tuple(norm_for_elem(a) for a in node[3]))
+        return ("agg", node[1], node[2], tuple(norm_for_elem(a, owner) for a in node[3]))
     return node
 
 
@@ -275,7 +275,7 @@ class Scope:
         self.via = via            # (adaptor name, chain) the closure was applied through
 
     def _rw(self, node):
-        node = norm_for_elem(node)
+        node = norm_for_elem(node, self.prog.root_of(self.fn).id)
         if self.parent is None and not self.env and self.elem is None and not self.argmap:
             return node
         env = self.env
